@@ -297,7 +297,7 @@ PLANS["C02"] = dict(
     title="Operating on a proxy is indistinguishable from operating on the target (per-operation forwarding)",
     contracts=ALL_CONTRACTS, specs=ALL_SPECS, table="module",
     targets=[NETREF + "syncreq", NETREF + "asyncreq"] + FWD_METHODS + GEN_METHODS + SMALL_HANDLERS + ATTR_FUNCS,
-    lemmas=[], compositions=[], finite=["handler_table"], bounded=["buffiter_bounded"], native_focus=[], design_ref="DESIGN.md section 4, C02",
+    lemmas=[], compositions=[], finite=["handler_table"], bounded=["buffiter_bounded", "get_methods_bounded"], native_focus=[], design_ref="DESIGN.md section 4, C02",
     assumptions=COMMON_ASSUMPTIONS + [
         "SCOPE: the property is decided operation by operation. PROXY HALF (verified): every special method of BaseNetref and "
         "every generated method (_make_method's four shapes) performs exactly ONE request on the proxy's own connection, with "
@@ -313,6 +313,8 @@ PLANS["C02"] = dict(
         "NOT under contract: which methods a generated proxy class has (class_factory, _handle_inspect, lib.get_methods, "
         "NetrefClass), __instancecheck__ against non-proxy objects, bool()/len()/iteration which go through generated methods "
         "(covered as _make_method shapes only)",
+        "BOUNDED (not a proof): lib.get_methods (which attribute names a generated proxy class gets as methods) is run on class "
+        "hierarchies inside a stated bound against Python's own attribute resolution - the most derived definition decides",
         "BOUNDED (not a proof): helpers.buffiter is a generator, outside the verifier's subset; it is run against its spec "
         "(yields exactly what plain iteration yields, exhausts the target) for every combination of target length 0..40, chunk "
         "1..9, max_chunk 1..9, factor in {1, 2, 3, 5}, with the request served by the handler's own logic",
@@ -455,7 +457,7 @@ PLANS["C18"] = dict(
     title="The registry reflects exactly the live registrations and cannot be knocked over (table and serving loop)",
     contracts=ALL_CONTRACTS, specs=ALL_SPECS, table="module",
     targets=[REG + n for n in ("_add_service", "_remove_service", "cmd_register", "cmd_unregister", "_work")],
-    lemmas=[], compositions=[], bounded=["registry_query_bounded"], native_focus=[], design_ref="DESIGN.md section 4, C18",
+    lemmas=[], compositions=[], bounded=["registry_query_bounded", "registry_history_bounded"], native_focus=[], design_ref="DESIGN.md section 4, C18",
     assumptions=COMMON_ASSUMPTIONS + [
         "abstract view: the set of live registrations (name, address) with the time of their last refresh; the code's nested table "
         "name -> {address: time} is modelled as a dict of dicts over two-dimensional arrays (an inner dict has no state of its own)",
@@ -487,7 +489,8 @@ PLANS["C17"] = dict(
     targets=[SRV + n for n in ("Server.close", "ThreadPoolServer._drop_connection", "ThreadPoolServer.close",
                                "Server._authenticate_and_serve_client", "OneShotServer._accept_method",
                                "ThreadPoolServer._accept_method", "Server._serve_client", "Server._handle_connection",
-                               "ThreadPoolServer._authenticate_and_build_connection", "ThreadPoolServer._add_inactive_connection")],
+                               "ThreadPoolServer._authenticate_and_build_connection", "ThreadPoolServer._add_inactive_connection",
+                               "ForkingServer._handle_sigchld")],
     lemmas=[], compositions=[], native_focus=[], design_ref="DESIGN.md section 4, C17",
     assumptions=COMMON_ASSUMPTIONS + [
         "PARTIAL, sequential: VERIFIED - Server.close is idempotent; the first call marks the server closed and inactive, attempts "
@@ -507,6 +510,9 @@ PLANS["C17"] = dict(
         "outcome; the registrar's unregister and the logger are dynamic objects",
         "threads, queues, poll objects, sockets and the authenticator are dynamic objects: each method call is a pair of ghost "
         "events with any outcome; Thread.join / Queue.put are not given blocking semantics",
+        "forking server: only the SIGCHLD handler is under contract - it keeps calling os.waitpid(-1, WNOHANG) until the system answers "
+        "`no terminated child left` (pid <= 0) or OSError, so every child of a departed client is reaped however many exits one signal "
+        "delivery stands for, and re-installs itself; os.waitpid / signal.signal are model externals (ghost events)",
         "NOT covered (threads / OS, out of reach): that a shutdown makes the client observe end-of-stream promptly, descriptor "
         "accounting (contextlib.closing(sock) in the per-client finally is a no-op: the descriptor is released by the connection's "
         "teardown or by garbage collection), the forking server, accept loops under concurrent close, ThreadedServer's thread spawn",
